@@ -4,6 +4,7 @@ mod l_clock;
 mod l_codec;
 mod l_history;
 mod l_pl;
+mod l_tok;
 mod l_prog;
 mod l_sched;
 
@@ -35,6 +36,7 @@ fn main() {
             "sched" => l_sched::run(&words),
             "clock" => l_clock::run(&words),
             "pl" => l_pl::run(&words),
+            "tok" => l_tok::run(&words),
             _ => {
                 eprintln!("usage: vharness <codec>");
                 std::process::exit(2);
